@@ -998,6 +998,14 @@ class Facts:
                 if best and best[0] >= 0.6:
                     self.renamed[best[1]] = m
                     used.add(best[1])
+                    continue
+                # the only function that disappeared from this impl/module and the only new one in it, and the new one
+                # still calls everything the old one called (a rename plus an added assertion or log line)
+                sib_missing = [x for x in missing if x.rsplit('::', 1)[0] == parent]
+                sib_unknown = [x for x in unknown if x.rsplit('::', 1)[0] == parent and x not in used]
+                if len(sib_missing) == 1 and len(sib_unknown) == 1 and want and want <= cur[sib_unknown[0]]:
+                    self.renamed[sib_unknown[0]] = m
+                    used.add(sib_unknown[0])
         if self.renamed:
             _RENAME.update(self.renamed)
             by = {}
